@@ -13,7 +13,7 @@
 // harness: k_csi_scalar_78 props=C03,C20 fns=Parser::csi_dispatch kind=complete tier=quick timeout=900 obligation=Parser::csi_dispatch/E1(scalar,0x78-0x7e)
 // harness: k_csi_other props=C03,C20 fns=Parser::csi_dispatch kind=complete tier=quick timeout=600 obligation="Parser::csi_dispatch/E1(final outside 0x40-0x7e folded range)"
 // harness: k_csi_lists_modes props=C03 fns=Parser::csi_dispatch kind=bounded tier=quick timeout=900 obligation="Parser::csi_dispatch/E1(SM,RM,DECSET,DECRST lists)" bound="four concrete parameter vectors (unknown modes first, in the middle, only)"
-// harness: k_csi_lists_sgr props=C03,C08 fns=Parser::csi_dispatch,SgrOps kind=bounded tier=quick timeout=900 obligation="Parser::csi_dispatch/E1(SGR list)+SgrOps::next" bound="four concrete parameter vectors (48;5;n then a code; unknown code, 38;5;n, reset; 38 and 48 without a colour form; truncated 38;5; index 255 in both spellings)"
+// harness: k_csi_lists_sgr props=C03,C08 fns=Parser::csi_dispatch,SgrOps kind=bounded tier=quick timeout=900 obligation="Parser::csi_dispatch/E1(SGR list)+SgrOps::next" bound="four concrete parameter vectors (48;5;n then a code; unknown code, 38;5;n, reset; 38 and 48 without a colour form; truncated 38;5; index 255 in both spellings; bright colours 90-97 / 100-107)"
 // harness: k_sgr_step props=C03,C08 fns=SgrOps kind=bounded tier=thorough timeout=1800 obligation="SgrOps::next(one step)" bound="<= 5 remaining parameters, each fully symbolic (6 parts)"
 //
 // Kani units for the parts of parser.rs that are outside Verus's Rust subset (iterator chains,
@@ -325,6 +325,14 @@ mod verif_kani_parser {
         p.cur_param = 0;
         match p.csi_dispatch('m') {
             Some(Function::Sgr(v)) => assert!(v.len() == 1 && v[0] == SgrOp::SetForegroundColor(Color::Indexed(255))),
+            _ => assert!(false),
+        }
+        // bright colours: 90-97 and 100-107 select indices 8-15
+        let mut p = Parser::new();
+        set_params(&mut p, &[101, 95, 107, 90]);
+        match p.csi_dispatch('m') {
+            Some(Function::Sgr(v)) => assert!(v.len() == 4 && v[0] == SgrOp::SetBackgroundColor(Color::Indexed(9)) && v[1] == SgrOp::SetForegroundColor(Color::Indexed(13))
+                && v[2] == SgrOp::SetBackgroundColor(Color::Indexed(15)) && v[3] == SgrOp::SetForegroundColor(Color::Indexed(8))),
             _ => assert!(false),
         }
         // truncated 38;5 : both are dropped, nothing else
